@@ -54,6 +54,9 @@ _add("lmul_naive.a lmul_kara.a lmul.a", None, "lmul", "2", 2, 1, flags="w")
 for _n in ("lmul_naive", "lmul_kara", "lmul"):
     VARIANTS[_n + ".hl"]["model"] = _n
     VARIANTS[_n + ".a"]["model"] = _n
+_add("lmul_naive.alias lmul_naive.alias2", "lmul_naive", "lmul", "2", 2, 1)
+_add("lmul.alias", "lmul", "lmul", "2", 2, 1, flags="naive-only")     # lmul_kara is documented as not alias-safe
+_add("laddmul.alias laddmul.alias2", "laddmul", "laddmul", "3", 3, 1)
 _add("laddmul.rhl", "laddmul", "laddmul", "3", 3, 1)
 _add("laddmul.hl", "laddmul", "laddmul", "3", 2, 1)
 _add("laddmul.ra", "laddmul", "laddmul", "3", 3, 1, flags="w")
@@ -84,7 +87,7 @@ _add("bits.all", "bits", "bits", "1", 6, 1)
 _add("limb.setget", "limb", "limb", "limb", 2, 1)
 _add("manip.all", None, "manip", "1w", 9, 1)
 # --- part 1: shifts
-_add("shl.abc shl.op<< shl.op<<=", "shl", "shl", "sh64", 1, 1)
+_add("shl.abc shl.op<< shl.op<<= shl.alias", "shl", "shl", "sh64", 1, 1)
 _add("shl.int", "shl", "shl", "sh31", 1, 1)
 _add("shl.u32", "shl", "shl", "sh32", 1, 1)
 _add("shl.u16", "shl", "shl", "sh16", 1, 1)
@@ -1052,6 +1055,8 @@ def build_cases(rng, tier):
             if "w" in fl and K == 11:
                 continue      # needs ruint<12>; covered up to K = 10
             if "k7" in fl and K < 7:
+                continue
+            if "naive-only" in fl and K >= (source_threshold() or 10):
                 continue
             for i in range(case_count(v, info, K, tier)):
                 a = gen_args(rng, K, info["gen"], info["spec"])
